@@ -99,6 +99,12 @@ Definition sv_eqb (sv : option value) (v : value) : bool :=
 (* mustBeHashed(version, value): version == V1 && len(value) > 32 *)
 Definition must_hash (v1 : bool) (v : value) : bool := v1 && (32 <? length v).
 
+Definition kid_pk_nonempty (h : heap) (ch : option addr) : bool :=
+  match ch with
+  | Some x => match h x with Some cc => 0 <? length (c_pk cc) | None => false end
+  | None => false
+  end.
+
 (* fuel for every Merkle-value computation / tree walk: more than the number of cells *)
 Definition cfuel (m : mem) : nat := S (N.to_nat (nx m)).
 
@@ -186,6 +192,8 @@ Variable fx : bool.         (* true: repaired code; false: pinned code *)
 Variable g : N.             (* t.generation *)
 Variable v1 : bool.         (* t.version == V1 *)
 Variable rt : option addr.  (* t.root during the operation (it is assigned when the operation returns) *)
+Variable fd : bool.         (* deleteBranch returns early when the key ends at a child slot whose node has a
+                               non-empty partial key (fixes/C02-delete-exhausted-key-nested.patch applied) *)
 
 Definition is_root (a : addr) : bool := match rt with Some r => N.eqb r a | None => false end.
 
@@ -353,9 +361,12 @@ Fixpoint delete (fuel : nat) (m : mem) (p : option addr) (k : key) {struct fuel}
             (m3, Some b, true)
           else
             let n := cpl (c_pk c) k in
-            if n =? length k then (m, Some a, false)
+            if n <? length (c_pk c) then (m, Some a, false)
             else
               let idx := nth n k 0 in
+              if fd && (length (skipn (S n) k) =? 0) && kid_pk_nonempty (hp m) (nth idx (c_kids c) None)
+              then (m, Some a, false)
+              else
               let '(m1, ch', deleted) := delete f m (nth idx (c_kids c) None) (skipn (S n) k) in
               if negb deleted then (m1, Some a, false)
               else
@@ -411,8 +422,9 @@ End Model.
 
 (* ------------------------------------------------------------------ reads *)
 
-(* retrieve / retrieveFromLeaf / retrieveFromBranch *)
-Fixpoint retrieve (fuel : nat) (h : heap) (p : option addr) (k : key) {struct fuel} : option value :=
+(* retrieve / retrieveFromLeaf / retrieveFromBranch; fg: the early return of
+   fixes/C02-get-exhausted-key-nested.patch is present *)
+Fixpoint retrieve (fg : bool) (fuel : nat) (h : heap) (p : option addr) (k : key) {struct fuel} : option value :=
   match fuel with
   | O => None
   | S f =>
@@ -424,10 +436,12 @@ Fixpoint retrieve (fuel : nat) (h : heap) (p : option addr) (k : key) {struct fu
       | Some c =>
         if negb (c_isb c) then (if key_eqb (c_pk c) k then c_sv c else None)
         else if (length k =? 0) || key_eqb (c_pk c) k then c_sv c
-        else if (length k <? length (c_pk c)) && is_prefix k (c_pk c) then None
+        else if negb (is_prefix (c_pk c) k) then None
         else
           let n := cpl (c_pk c) k in
-          retrieve f h (nth (nth n k 0) (c_kids c) None) (skipn (S n) k)
+          let ch := nth (nth n k 0) (c_kids c) None in
+          if fg && (length (skipn (S n) k) =? 0) && kid_pk_nonempty h ch then None
+          else retrieve fg f h ch (skipn (S n) k)
       end
     end
   end.
@@ -477,6 +491,7 @@ Inductive res := ROk | RPanic | RBad.
 Section Run.
 Variable H : list byte -> list byte.
 Variable fx : bool.
+Variables fd fg : bool.
 
 Definition set_handle (st : state) (i : nat) (hd : handle) (m : mem) : state :=
   mkSt m (set_nth i hd (s_hs st)).
@@ -491,7 +506,7 @@ Definition hash_handle (m : mem) (hd : handle) : mem * list byte :=
 (* InMemoryTrie.Entries: every visited key read back with Get *)
 Definition entries_handle (m : mem) (hd : handle) : list (list byte * value) :=
   map (fun k => let kb := nibbles_to_key_le k in
-                (kb, match retrieve (S (length (key_le_to_nibbles kb))) (hp m) (h_root hd) (key_le_to_nibbles kb) with
+                (kb, match retrieve fg (S (length (key_le_to_nibbles kb))) (hp m) (h_root hd) (key_le_to_nibbles kb) with
                      | Some v => v | None => [] end))
       (node_keys (cfuel m) (hp m) (h_root hd) []).
 
@@ -502,7 +517,7 @@ Definition put_handle (m : mem) (hd : handle) (k v : list byte) : mem * handle :
 
 Definition del_handle (m : mem) (hd : handle) (k : list byte) : mem * handle :=
   let key := key_le_to_nibbles k in
-  let '(m1, r, _) := delete H (h_gen hd) (h_root hd) (S (length key)) m (h_root hd) key in
+  let '(m1, r, _) := delete H (h_gen hd) (h_root hd) fd (S (length key)) m (h_root hd) key in
   (m1, mkH (h_gen hd) r (h_v1 hd)).
 
 Definition clear_handle (m : mem) (hd : handle) (p : list byte) : mem * handle :=
